@@ -246,7 +246,7 @@ class Builder:
 
     def numbers(self, n):
         if self.coin("p_sparse_numbers"):
-            nums = self.d(st.lists(st.one_of(st.integers(1, 60), st.integers(1, 18999), st.integers(20000, 536870911)),
+            nums = self.d(st.lists(st.one_of(st.integers(1, 60), st.integers(1, 18999), st.integers(20000, 536870911 - 400)),
                                    min_size=n, max_size=n, unique=True))
             return nums
         return list(range(1, n + 1))
@@ -255,8 +255,13 @@ class Builder:
         """Phase 2: fields and oneofs of a skeleton (and of its nested messages)."""
         n = self.d(st.integers(0, self.p["max_fields"])) if nfields is None else nfields
         used = set(reserve) | {f["name"] for f in m["fields"]}
-        start = max([f["number"] for f in m["fields"]] + [0])
-        nums = [x + start for x in self.numbers(n)]
+        taken = {f["number"] for f in m["fields"]}
+        nums = []
+        for x in self.numbers(n):
+            while x in taken or 19000 <= x <= 19999:
+                x += 1
+            taken.add(x)
+            nums.append(x)
         for i in range(n):
             m["fields"].append(self.field(self.field_name(used), nums[i], fileidx, "." + full))
         if m["fields"] and m["fields"][0]["type"] == "map" and m["fields"][0]["map_value"]["type"] == "message" \
@@ -266,7 +271,7 @@ class Builder:
             self.excluded.append("F-mock-map-recursion")
             m["fields"].append(m["fields"].pop(0))
             if m["fields"][0]["type"] == "map" and m["fields"][0]["map_value"]["type"] == "message":
-                m["fields"].insert(0, {"name": "lead_in", "number": max(f["number"] for f in m["fields"]) + 1, "type": "string"})
+                m["fields"].insert(0, {"name": "lead_in", "number": _free_number(m["fields"]), "type": "string"})
         if self.coin("p_oneof"):
             singles = [f for f in m["fields"] if not f.get("repeated") and f["type"] != "map" and not f.get("optional") and not f.get("required")]
             k = self.d(st.integers(0, min(2, len(singles))))
@@ -303,8 +308,7 @@ class Builder:
             pats = [f"projects/{{project}}/{coll}/{{{var}}}", f"folders/{{folder}}/{coll}/{{{var}}}"]
         m["resource"] = {"type": f"{host}/{m['name']}", "patterns": pats}
         if not any(f["name"] == "name" for f in m["fields"]):
-            num = max([f["number"] for f in m["fields"]] + [0]) + 1
-            m["fields"].append({"name": "name", "number": num, "type": "string"})
+            m["fields"].append({"name": "name", "number": _free_number(m["fields"]), "type": "string"})
         self.resources.append({"type": m["resource"]["type"], "patterns": pats, "msg_full": "." + full})
 
     # -- methods -----------------------------------------------------------
@@ -551,6 +555,14 @@ class Builder:
         if self.excluded:
             api["_excluded"] = sorted(set(self.excluded))
         return api
+
+
+def _free_number(fields):
+    taken = {f["number"] for f in fields}
+    n = 1
+    while n in taken:
+        n += 1
+    return n
 
 
 def _has_reserved(path):
